@@ -197,7 +197,19 @@ def handle (req impl : String) : String × String :=
           let m := showOutcome (Image.fromPngData inflate png)
           (m, judge w h d.expectedPixels impl)
       else
-        (showOutcome (Image.fromPngData storedInflate png), "na")
+        -- mutated file: own stored-block inflater; where that cannot tell (compressed block
+        -- types) the externally supplied result of flate2 on the IDAT payload
+        let ext : InflRes := match mutl.splitOn ":" with
+          | [_, "E"] => .fail
+          | [_, hx] => match bytesOfHex? hx with
+            | some b => .ok b
+            | none => .unknown
+          | _ => .unknown
+        let inflate : Inflate := fun zs =>
+          match storedInflate zs with
+          | .unknown => ext
+          | r => r
+        (showOutcome (Image.fromPngData inflate png), "na")
     | _, _, _, _, _, _, _, _, _, _ => ("bad-request", "na")
   | ["raw", kind, _cfg, w, h, bpc, data] =>
     match w.toNat?, h.toNat?, bpc.toNat?, bytesOfHex? data with
